@@ -487,12 +487,20 @@ def _gen_c01(rng, tier):
     yield from generate_src_chained(random.Random(rng.getrandbits(48)), tier)
 
 
+def _gen_c04(rng, tier):
+    yield from generate_C04(rng, tier)
+    for c in generate_src_chained(random.Random(rng.getrandbits(48)), tier):
+        if c.startswith("src_chained_put ") or c.startswith("src_chained_len "):
+            yield c
+
+
 def _classify_c01(case, m):
     return classify_src(case, m) or classify(case, m)
 
 
 PARTS = {
-    "C01": dict(coq_props=["Properties_C01_chained", "Properties_C01_csimple_src"], files=FILES, rule=RULE_C01,
+    "C01": dict(coq_props=["Properties_C01_chained", "Properties_C01_csimple_src", "Properties_C01_chained_src"],
+                files=FILES, rule=RULE_C01,
                 generate=_gen_c01,
                 oracles=dict(ORACLES_C01, **SRC_ORACLES), classify=_classify_c01, search=_search(generate_C01),
                 trusted_base=SRC_TRUSTED,
@@ -500,8 +508,9 @@ PARTS = {
                              "(varintChainedGetVarint32 is compiled without its 1-byte case and is only called "
                              "on encodings of 2 bytes and more)"] + SRC_ASSUME,
                 configs_quick=["pinned", "O0"]),
-    "C04": dict(coq_props=["Properties_C04_chained"], files=FILES, rule=RULE_C04, generate=generate_C04,
-                oracles=ORACLES_C04, classify=classify, search=_search(generate_C04),
+    "C04": dict(coq_props=["Properties_C04_chained", "Properties_C04_chained_src"], files=FILES, rule=RULE_C04,
+                generate=_gen_c04, oracles=dict(ORACLES_C04, **SRC_ORACLES), classify=_classify_c01,
+                search=_search(generate_C04), trusted_base=SRC_TRUSTED,
                 assumptions=["canonical = the encoder's output is the shortest byte string the decoder-spec maps "
                              "to the value (the decoders themselves accept non-minimal strings)"],
                 configs_quick=["pinned", "O0"]),
